@@ -47,6 +47,8 @@ pub struct NodeObs {
     pub store_t: HashMap<Vec<u8>, u64>,
 }
 
+pub static KEEP_TRACE: std::sync::atomic::AtomicBool = std::sync::atomic::AtomicBool::new(false);
+
 pub struct Observer {
     pub members: Members,
     pub honest: Vec<bool>,
@@ -69,6 +71,9 @@ pub struct Observer {
     pub new_rounds: Vec<u64>,
     pub ext: crate::monitors::Ext,
     pub trace: Option<Vec<usize>>,
+    /// Last events of the run in readable form (only kept while a violation is being documented).
+    pub recent: std::collections::VecDeque<String>,
+    pub keep_recent: bool,
 }
 
 pub enum Decoded {
@@ -126,8 +131,17 @@ impl Observer {
             max_round_seen: 0,
             new_rounds: Vec::new(),
             ext: crate::monitors::Ext::new(n),
+            recent: std::collections::VecDeque::new(),
+            keep_recent: KEEP_TRACE.load(std::sync::atomic::Ordering::SeqCst),
             trace: std::env::var("HSIM_TRACE").ok().map(|v| v.split(',').filter_map(|x| x.parse().ok()).collect()),
         }
+    }
+
+    pub fn note_recent(&mut self, line: String) {
+        if self.recent.len() >= 200 {
+            self.recent.pop_front();
+        }
+        self.recent.push_back(line);
     }
 
     pub fn probe(&mut self, name: &str) {
@@ -144,6 +158,10 @@ impl Observer {
         self.probe(&format!("viol.{}.{}", prop, rule));
         if dup {
             return;
+        }
+        if self.keep_recent {
+            let line = format!("seq={} t={}us VIOLATION {}.{}: {}", self.last_seq, self.last_t, prop, rule, detail);
+            self.note_recent(line);
         }
         self.violations.push(Violation {
             prop: prop.to_string(),
@@ -219,6 +237,18 @@ impl Observer {
         match &ev.kind {
             TapKind::Frame { phase, fidx, data } => {
                 let dec = decode(ev, data);
+                if self.keep_recent {
+                    let what = match &dec {
+                        Decoded::Cons(m) => format!("{:?}", m),
+                        Decoded::Memp(MempoolMessage::Batch(t)) => format!("Batch {} ({} txs)", ident::short(&ident::bytes_digest(data)), t.len()),
+                        Decoded::Memp(MempoolMessage::BatchRequest(d, _)) => format!("BatchRequest {:?}", d.iter().map(ident::short).collect::<Vec<_>>()),
+                        Decoded::Raw => format!("{} raw bytes", data.len()),
+                        Decoded::Undecodable => format!("{} undecodable bytes", data.len()),
+                    };
+                    let mut what = what;
+                    what.truncate(160);
+                    self.note_recent(format!("seq={} t={}us {}->{} svc{} conn#{} {:?} frame{}: {}", ev.seq, ev.t_us, ev.src(), ev.dst(), ev.svc, ev.conn_idx, phase, fidx, what));
+                }
                 if let Some(f) = self.trace.as_ref() {
                     if ev.svc == SVC_MEMPOOL && (f.is_empty() || f.iter().any(|x| *x == ev.src() || *x == ev.dst())) {
                         let what = match &dec {
@@ -256,6 +286,9 @@ impl Observer {
                 crate::monitors::on_frame(self, ev, *phase, *fidx, data, &dec);
             }
             other => {
+                if self.keep_recent {
+                    self.note_recent(format!("seq={} t={}us connection {}=>{} svc{} #{}: {:?}", ev.seq, ev.t_us, ev.dialer, ev.listener, ev.svc, ev.conn_idx, other));
+                }
                 if let Some(f) = self.trace.as_ref() {
                     if f.is_empty() || f.iter().any(|x| *x == ev.dialer || *x == ev.listener) {
                         eprintln!("TRACE seq={} t={} conn c{}#{} {}=>{} svc{} {:?}", ev.seq, ev.t_us, ev.conn, ev.conn_idx, ev.dialer, ev.listener, ev.svc, other);
@@ -272,6 +305,9 @@ impl Observer {
         let d = self.learn_block(b, seq);
         self.probe("commit");
         self.fold_sig(&[7, node as u64, b.round]);
+        if self.keep_recent {
+            self.note_recent(format!("seq={} t={}us node {} COMMIT round {} {}", seq, t_us, node, b.round, ident::short(&d)));
+        }
 
         // ---- C02: per-node delivery order -------------------------------------------------
         if b.round == 0 || b.author == PublicKey::default() {
